@@ -278,10 +278,22 @@ func runCheck(prop, tier string, o opts) int {
 			deadline = t0.Add(time.Duration(n) * time.Second)
 		}
 	}
+	budget := 100 * time.Second
+	if tier == "thorough" {
+		budget = 20 * time.Minute
+	}
+	if v := os.Getenv("SYMGO_HARNESS_BUDGET_S"); v != "" {
+		if n, err := strconv.Atoi(v); err == nil {
+			budget = time.Duration(n) * time.Second
+		}
+	}
 	for _, e := range entries {
 		te := time.Now()
 		w.setInitOrder(e)
-		eo.Deadline = deadline
+		eo.Deadline = te.Add(budget)
+		if !deadline.IsZero() && deadline.Before(eo.Deadline) {
+			eo.Deadline = deadline
+		}
 		x := explore(w, e, eo)
 		x.wall = time.Since(te).Seconds()
 		xs = append(xs, x)
@@ -307,6 +319,9 @@ func runCheck(prop, tier string, o opts) int {
 			Asserts: x.assertStats, Reach: x.reachSeen, Queries: x.queries, UnknownBr: x.unknownBr, MaxDecisions: x.maxTraceLen, WallS: x.wall}
 		for _, r := range x.inconclusive {
 			problems = append(problems, x.harness+": "+r)
+		}
+		if x.budgetHit {
+			problems = append(problems, fmt.Sprintf("%s: exploration budget exhausted after %d paths; the bound is not covered", x.harness, x.paths))
 		}
 		// vacuity: every label must be reached by a feasible path
 		for _, l := range w.reachLabels(x.entry) {
